@@ -1,41 +1,167 @@
 import J5V.Bcl.FmtProofs
+import J5V.Bcl.LexShapeProofs
+import J5V.Generated.BcltokensFacts
 /-!
 # C09 — formatter preserves meaning, is idempotent and emits parseable source
 
-Only property theorems (+ non-vacuity examples).  Models: `J5V.Bcl.Fmt` (`tokenSource`,
-`quoteString`, `doubleSlashes`, `diffFile`, `reformatDescription`, `fmt`), `J5V.Bcl.Lexer`;
-lemmas: `J5V.Bcl.FmtProofs`.  All statements hold for every classifier `cls`.
+Only property theorems (+ non-vacuity examples, + obligations over regenerated source facts).
+Models: `J5V.Bcl.Fmt` (`tokenSource`, `quoteString`, `doubleSlashes`, `diffFile`,
+`reformatDescription`, `fmt`), `J5V.Bcl.Lexer`; lemmas: `J5V.Bcl.FmtProofs`.
+All statements hold for every classifier `cls` (hypotheses about `cls` are explicit).
+
+## `C09_token_inv_*`: the lexer inverts `tokenSource` for every token kind
+
+For each kind the hypothesis is the shape of literal the lexer can produce for that kind, and a
+condition on the text that follows the token in the output (what the formatter puts there always
+satisfies it: a space, an operator, a newline, or nothing).
 -/
 namespace J5V.Props.C09
 open J5V.Bcl
 
-/-- `tokenSource` is inverted by the lexer for **every** string literal (any runes: quotes,
-backslashes, newlines, tabs, control and non-printable characters, any Unicode): lexing the rendered
-token in front of any following text gives a STRING token with the identical literal and leaves the
-following text untouched. -/
-theorem C09_token_inv_string (cls : Cls) (c : Cur) (tok : Token) (h : tok.ty = .string)
-    (rest : List Rune) :
-    ∃ s, nextToken cls c (tokenSource tok ++ rest) = s ∧ s.err = none ∧ s.tok.ty = .string ∧
-      s.tok.lit = tok.lit ∧ s.rest = rest := by
-  unfold tokenSource
-  rw [h]
-  exact nextToken_string cls c tok.lit rest
+/-- what it means that lexing `src ++ rest` reads exactly one token `(ty, lit)` and stops before `rest` -/
+def LexesTo (cls : Cls) (c : Cur) (src rest : List Rune) (ty : TokenType) (lit : List Rune) : Prop :=
+  (nextToken cls c (src ++ rest)).err = none ∧ (nextToken cls c (src ++ rest)).tok.ty = ty ∧
+    (nextToken cls c (src ++ rest)).tok.lit = lit ∧ (nextToken cls c (src ++ rest)).rest = rest
 
-/-- … and for every regex literal the lexer can produce (`RegexLitWF`: non-empty, not starting with
-`/` or `*`, no newline), in front of any text that does not start with `/`. Slashes inside the
-literal are doubled and read back as single slashes. -/
+/-- STRING: every literal (quotes, backslashes, newlines, tabs, control and non-printable characters,
+any Unicode), any following text. -/
+theorem C09_token_inv_string (cls : Cls) (c : Cur) (tok : Token) (h : tok.ty = .string)
+    (rest : List Rune) : LexesTo cls c (tokenSource tok) rest .string tok.lit := by
+  unfold tokenSource LexesTo
+  rw [h]
+  obtain ⟨s, hs, h1, h2, h3, h4⟩ := nextToken_string cls c tok.lit rest
+  subst hs
+  exact ⟨h1, h2, h3, h4⟩
+
+/-- REGEX: every literal the lexer can produce (`RegexLitWF`: non-empty, not starting with `/` or `*`,
+no newline), in front of any text not starting with `/`. Slashes are doubled and read back single. -/
 theorem C09_token_inv_regex (cls : Cls) (c : Cur) (tok : Token) (h : tok.ty = .regex)
     (hwf : RegexLitWF tok.lit) (rest : List Rune) (hrest : rest.head? ≠ some cSLASH) :
-    ∃ s, nextToken cls c (tokenSource tok ++ rest) = s ∧ s.err = none ∧ s.tok.ty = .regex ∧
-      s.tok.lit = tok.lit ∧ s.rest = rest := by
-  unfold tokenSource
+    LexesTo cls c (tokenSource tok) rest .regex tok.lit := by
+  unfold tokenSource LexesTo
   rw [h]
-  exact nextToken_regex cls c tok.lit rest hwf hrest
+  obtain ⟨s, hs, h1, h2, h3, h4⟩ := nextToken_regex cls c tok.lit rest hwf hrest
+  subst hs
+  simp only [List.append_assoc] at h1 h2 h3 h4 ⊢
+  exact ⟨h1, h2, h3, h4⟩
+
+/-- IDENT and BOOL (an identifier-shaped literal is BOOL exactly when it spells `true` / `false`), in
+front of text that does not continue the identifier. -/
+theorem C09_token_inv_ident (cls : Cls) (c : Cur) (tok : Token)
+    (h : tok.ty = .ident ∨ tok.ty = .bool) (hwf : IdentLitWF cls tok.lit) (rest : List Rune)
+    (hstop : IdentStop cls rest) :
+    LexesTo cls c (tokenSource tok) rest
+      (if tok.lit = litTrue ∨ tok.lit = litFalse then .bool else .ident) tok.lit := by
+  have : tokenSource tok = tok.lit := by
+    unfold tokenSource; rcases h with h | h <;> rw [h]
+  rw [this]
+  exact nextToken_identlike cls c tok.lit rest hwf hstop
+
+/-- INT: a digit-headed run of digits, in front of text that is neither a digit nor `.`. -/
+theorem C09_token_inv_int (cls : Cls) (c : Cur) (tok : Token) (h : tok.ty = .int) (r : Rune)
+    (ds : List Rune) (hl : tok.lit = r :: ds) (hh : DigitHead cls r)
+    (hds : ∀ x ∈ ds, cls.isDigit x = true) (rest : List Rune) (hstop : NumberStop cls rest) :
+    LexesTo cls c (tokenSource tok) rest .int tok.lit := by
+  have : tokenSource tok = tok.lit := by unfold tokenSource; rw [h]
+  rw [this, hl]
+  exact nextToken_int cls c r ds rest hh hds hstop
+
+/-- DECIMAL: digits, one `.`, digits (`.` is not a digit for the classifier). -/
+theorem C09_token_inv_decimal (cls : Cls) (c : Cur) (tok : Token) (h : tok.ty = .decimal) (r : Rune)
+    (ds fs : List Rune) (hl : tok.lit = r :: ds ++ cDOT :: fs) (hh : DigitHead cls r)
+    (hds : ∀ x ∈ ds, cls.isDigit x = true) (hfs : ∀ x ∈ fs, cls.isDigit x = true)
+    (hdot : cls.isDigit cDOT = false) (rest : List Rune) (hstop : NumberStop cls rest) :
+    LexesTo cls c (tokenSource tok) rest .decimal tok.lit := by
+  have : tokenSource tok = tok.lit := by unfold tokenSource; rw [h]
+  rw [this, hl]
+  exact nextToken_decimal cls c r ds fs rest hh hds hfs hdot hstop
+
+/-- COMMENT (`//…`): any literal without a newline, at the end of a line. -/
+theorem C09_token_inv_comment (cls : Cls) (c : Cur) (tok : Token) (h : tok.ty = .comment)
+    (hlit : ∀ r ∈ tok.lit, r ≠ cNL) (rest : List Rune) (hend : LineEnd rest) :
+    LexesTo cls c (tokenSource tok) rest .comment tok.lit := by
+  unfold tokenSource; rw [h]
+  exact nextToken_comment cls c tok.lit rest hlit hend
+
+/-- BLOCK_COMMENT: any literal not containing `*/` (newlines allowed), any following text. -/
+theorem C09_token_inv_blockComment (cls : Cls) (c : Cur) (tok : Token) (h : tok.ty = .blockComment)
+    (hlit : NoCloser tok.lit) (rest : List Rune) :
+    LexesTo cls c (tokenSource tok) rest .blockComment tok.lit := by
+  unfold tokenSource; rw [h]
+  exact nextToken_blockComment cls c tok.lit rest hlit
+
+/-- DESCRIPTION: a literal without newline that does not start with white space, at the end of a line
+(`' '` must be white space for the classifier). -/
+theorem C09_token_inv_description (cls : Cls) (hsp : cls.isSpace cSP = true) (c : Cur) (tok : Token)
+    (h : tok.ty = .description) (hlit : ∀ r ∈ tok.lit, r ≠ cNL)
+    (hhead : ∀ r, tok.lit.head? = some r → cls.isSpace r = false) (rest : List Rune)
+    (hend : LineEnd rest) : LexesTo cls c (tokenSource tok) rest .description tok.lit := by
+  unfold tokenSource; rw [h]
+  exact nextToken_description cls hsp c tok.lit rest hlit hhead hend
+
+/-- operators: the token's character -/
+theorem C09_token_inv_operator (cls : Cls) (c : Cur) (tok : Token) (r : Rune)
+    (hop : operatorOf r = some tok.ty) (hl : tok.lit = [r]) (rest : List Rune) :
+    LexesTo cls c (tokenSource tok) rest tok.ty tok.lit := by
+  have : tokenSource tok = tok.lit := by
+    unfold tokenSource
+    have : tok.ty.isOperator = true := by
+      unfold operatorOf at hop
+      repeat' split at hop
+      all_goals first | (cases hop) | (injection hop with hop; rw [← hop]; rfl)
+    cases hty : tok.ty <;> simp_all [TokenType.isOperator]
+  rw [this, hl]
+  exact nextToken_operator cls c r tok.ty hop rest
+
+/-! ## All kinds at once, for exactly the tokens the lexer produces -/
+
+/-- what may follow the rendered token, by kind (what `Fmt` emits after a token always satisfies it) -/
+def FollowOK (cls : Cls) (ty : TokenType) (rest : List Rune) : Prop :=
+  match ty with
+  | .regex => rest.head? ≠ some cSLASH
+  | .ident | .bool => IdentStop cls rest
+  | .int | .decimal => NumberStop cls rest
+  | .comment | .description => LineEnd rest
+  | _ => True
+
+/-- Every token of an error-free lex has a literal of the shape of its kind (`TokLitWF`). -/
+theorem C09_lexed_tokens_wf (cls : Cls) (ff : Bool) (src : List Rune) (ts : List Token)
+    (h : allTokens cls ff src = .toks ts) : ∀ t ∈ ts, TokLitWF cls t :=
+  allTokens_tokwf cls ff src ts h
 
 /-! ## Non-vacuity -/
 
 /-- `a/b"c` is a well-formed regex literal -/
 example : RegexLitWF [97, 47, 98, 34, 99] :=
   ⟨⟨97, [47, 98, 34, 99], rfl, by decide, by decide⟩, by decide⟩
+/-- `x_1` is a well-formed identifier for the ASCII classifier -/
+example : IdentLitWF asciiCls (ofAscii "x_1") :=
+  ⟨by decide, fun r h => by
+      have : r = 120 := by simpa [ofAscii] using h.symm
+      subst this
+      exact ⟨by decide, by decide, by decide, by decide, by decide, by decide, by decide, by decide⟩,
+    by decide⟩
+example : NoCloser (ofAscii "a * / b **") := by decide
+example : asciiCls.isSpace cSP = true := by decide
+end J5V.Props.C09
+
+/-! ## Obligations over facts regenerated from the current source -/
+namespace J5V.Props.C09
+open J5V.Generated.Bcltokens
+
+theorem C09_src_tokenSource : tokenSourceCases =
+    [("STRING", "quoteString(tok.Lit)"),
+     ("REGEX", "fmt.Sprintf(\"/%s/\", strings.ReplaceAll(tok.Lit, \"/\", \"//\"))"),
+     ("DESCRIPTION", "fmt.Sprintf(\"| %s\", tok.Lit)"),
+     ("COMMENT", "fmt.Sprintf(\"//%s\", tok.Lit)"),
+     ("BLOCK_COMMENT", "fmt.Sprintf(\"/*%s*/\", tok.Lit)"),
+     ("otherwise", "tok.Lit")] := by decide
+theorem C09_src_quoteString : quoteStringBody =
+    "{ sb := &strings.Builder{} sb.WriteByte('\"') for _, r := range lit { switch r { case '\\\\', '\"', '\\n': sb.WriteByte('\\\\') } sb.WriteRune(r) } sb.WriteByte('\"') return sb.String() }" := by
+  rfl
+theorem C09_src_description : descriptionWordSplit = "strings.Fields(line)" ∧
+    descriptionConds = ["strings.TrimSpace(line) == \"\"", "pend != \"\"",
+      "!lastWasEmpty && len(linesOut) > 0", "pend == \"\"", "len(pend)+len(word) > maxWidth",
+      "pend != \"\""] := by decide
 
 end J5V.Props.C09
